@@ -441,7 +441,7 @@ func c11Cases(l *evlog.Log) []c11Case {
 		}
 	}
 	hellos := []string{"small", "pad512", "mid", "pq"}
-	for i := 0; i < l.Pick(500, 12000); i++ {
+	for i := 0; i < l.Pick(800, 40000); i++ {
 		list := specgen.GenList(rng, 14)
 		c := c11Case{Name: fmt.Sprintf("gen/%05d", i), Hello: hellos[rng.IntN(len(hellos))], List: list, Suppress: specgen.GenSuppress(rng, list),
 			Randomize: rng.IntN(2) == 0, SCID: []int{0, 3, 8, 20}[rng.IntN(4)], IDsFirst: rng.IntN(2) == 0, Dials: dials}
@@ -532,7 +532,7 @@ func TestVerifC11Helpers(t *testing.T) {
 	l := evlog.Open("C11")
 	defer l.Close()
 	rng := l.Rand("c11helpers")
-	batches := l.Pick(40, 400)
+	batches := l.Pick(40, 1600)
 	for b := 0; b < batches; b++ {
 		if !l.Mine(b) {
 			continue
@@ -756,7 +756,7 @@ func TestVerifC11Distribution(t *testing.T) {
 		idx++
 		// ---- dials with RandomizeTransportParameters, one spec value for all dials (plus one suppressed parameter)
 		if l.Mine(idx) {
-			total := l.Pick(2400, 6000)
+			total := l.Pick(2400, 12000)
 			cs := c11Case{Name: fmt.Sprintf("distribution/dial/n=%d", n), Hello: "small", List: append(slices.Clone(lists[n]), specgen.Param{K: "dgram", V: 1200}), Suppress: []uint64{0x20}, Randomize: true, SCID: 3, Dials: total}
 			if c := l.Begin("C11/"+cs.Name, cs); c != nil {
 				synctest.Test(t, func(t *testing.T) {
@@ -847,16 +847,16 @@ func TestVerifC11Fingerprint(t *testing.T) {
 			if !mine {
 				continue
 			}
-			total := l.Pick(60, 1000)
+			total := l.Pick(60, 2000)
 			if mode == "spec-per-dial" {
-				total = l.Pick(24, 200)
+				total = l.Pick(24, 400)
 			}
 			c := l.Begin(fmt.Sprintf("C11/fingerprint/%s/%s", name, mode), map[string]any{"quicid": name, "mode": mode, "dials": total})
 			if c == nil {
 				continue
 			}
 			qid := quicworld.QUICIDs[name]
-			ids := map[string]int{}          // identifier -> dials
+			ids := map[string]int{}                 // identifier -> dials
 			byFrames := map[string]map[string]int{} // frame type set -> identifier -> dials
 			run := func(n int) {
 				synctest.Test(t, func(t *testing.T) {
